@@ -754,8 +754,15 @@ func (f *free) check(id, key int64, play int, step, from, to int64, beginSeq int
 
 func freeRunning(h *verifx.H) {
 	h.Cases(func(ci int, r *verifx.Rng) {
-		if ci < 2 {
+		switch {
+		case ci < 2:
 			limitScenario(h, ci)
+			return
+		case ci == 2:
+			walkScenario(h)
+			return
+		case ci == 3:
+			exactLimitScenario(h)
 			return
 		}
 		f := &free{h: h, loads: map[int64]*fload{}, publ: map[int64]*fload{}, stats: map[string]int64{}, seed: r.U64(), failPct: r.Pick(3, 3, 1) * 5}
@@ -984,6 +991,175 @@ func limitScenario(h *verifx.H, kind int) {
 	}
 	v.Shutdown()
 	h.NonTrivial("limits-switched-off-while-parked")
+}
+
+// ---------------------------------------------------------------------------------------------- walk / exact-limit scenarios
+// walkScenario: an invalidation walk over the buckets of a shard is stalled on the first bucket while the bucket its
+// iterator points at is evicted; every bucket that is still cached must have been invalidated when the walk ends.
+func walkScenario(h *verifx.H) {
+	h.Op("walk-scenario invalidate-vs-evict")
+	var version atomic.Int64
+	version.Store(1)
+	stub := func(ctx context.Context, reqID, keyID, fromSec, toSec, stepSec int64, nslots int) ([][]api.VerifC23Row, error) {
+		ver := version.Load()
+		rows := make([][]api.VerifC23Row, nslots)
+		for i := range rows {
+			rows[i] = stubRows(fromSec+int64(i)*stepSec, keyID, stepSec, ver, reqID)
+		}
+		return rows, nil
+	}
+	v := api.VerifC23New(0, stub)
+	defer v.Shutdown()
+	base := ((time.Now().Unix() - 86400) / 60) * 60
+	waitFor := func(what string, cond func() bool) bool {
+		deadline := time.Now().Add(hangAfter)
+		for !cond() {
+			if time.Now().After(deadline) {
+				h.Obs("stuck waiting for: %s", what)
+				return false
+			}
+			time.Sleep(200 * time.Microsecond)
+		}
+		return true
+	}
+	id := int64(0)
+	get := func(key int64) [][]api.VerifC23Row {
+		id++
+		rows, err := v.Get(context.Background(), id, "u", fmt.Sprintf("k%d", key), key, 0, 1, base, base+60, false)
+		if err != nil {
+			h.Obs("get failed: %v", err)
+		}
+		return rows
+	}
+	for k := int64(1); k <= 3; k++ {
+		get(k)
+	}
+	if !waitFor("three chunks cached", func() bool {
+		n := 0
+		for _, b := range v.Dump(1, false) {
+			for _, c := range b.Chunks {
+				if c.HasData && c.Loading == 0 {
+					n++
+				}
+			}
+		}
+		return n == 3
+	}) {
+		return
+	}
+	firstLoads := id // loads 1..3 finished before the invalidation
+	version.Add(1)
+	release := v.HoldBucket(1, "k1")
+	invDone := make(chan struct{})
+	sec := base + 7
+	for rowsOf(sec, 1, 1) == 0 { // a second whose slot had rows at the first load
+		sec++
+	}
+	go func() { v.Invalidate([]int64{sec}, 1); close(invDone) }()
+	stalled := waitFor("invalidate walk stalled on k1 with its iterator on k2", func() bool { return v.InvalidateIterKey(1) == "k2" })
+	v.RemoveBucket(1, "k2") // what the trim goroutine does under memory pressure
+	release()
+	select {
+	case <-invDone:
+	case <-time.After(hangAfter):
+		h.Obs("hang")
+		h.Viol("request-never-returns", "walk scenario: invalidate did not return")
+		return
+	}
+	if !stalled {
+		return
+	}
+	// requests that begin after the invalidation completed must not see rows of the loads that finished before it
+	for k := int64(1); k <= 3; k++ {
+		rows := get(k)
+		i := int(sec - base)
+		if i < len(rows) {
+			for _, r := range rows[i] {
+				if r.Load <= firstLoads {
+					h.Viol("stale-after-invalidate", "walk scenario: key %d slot time %d holds rows of load %d (version %d), finished before the invalidation of that second which completed before the request began; the bucket was behind an evicted bucket in the shard's list",
+						k, sec, r.Load, r.Ver)
+					break
+				}
+			}
+		}
+	}
+	h.Obs("ok")
+	h.NonTrivial("invalidate-walk-vs-evict")
+}
+
+// exactLimitScenario: a load following the inflight protocol is parked at the soft limit; the trim goroutine (held back
+// until then) evicts exactly down to the soft limit and goes to sleep: the load must go on.
+func exactLimitScenario(h *verifx.H) {
+	h.Op("exact-soft-limit-scenario")
+	stub := func(ctx context.Context, reqID, keyID, fromSec, toSec, stepSec int64, nslots int) ([][]api.VerifC23Row, error) {
+		ctx, cancel := context.WithCancel(ctx)
+		defer cancel()
+		_, finish := api.VerifC23Inflight(ctx, cancel) // NewInflightReq + updateInflightApprox(id, 0), as loadPoints does
+		defer finish()
+		rows := make([][]api.VerifC23Row, nslots)
+		for i := range rows {
+			rows[i] = stubRows(fromSec+int64(i)*stepSec, keyID, stepSec, 1, reqID)
+		}
+		return rows, nil
+	}
+	v := api.VerifC23New(0, stub)
+	base := ((time.Now().Unix() - 86400) / 60) * 60
+	waitFor := func(what string, cond func() bool) bool {
+		deadline := time.Now().Add(hangAfter)
+		for !cond() {
+			if time.Now().After(deadline) {
+				h.Obs("stuck waiting for: %s", what)
+				return false
+			}
+			time.Sleep(200 * time.Microsecond)
+		}
+		return true
+	}
+	sizeOf := func(key string) int {
+		n := 0
+		for _, b := range v.Dump(1, false) {
+			if b.Key == key {
+				for _, c := range b.Chunks {
+					n += c.Size
+				}
+			}
+		}
+		return n
+	}
+	for k := int64(1); k <= 2; k++ {
+		if _, err := v.Get(context.Background(), k, "u", fmt.Sprintf("k%d", k), k, 0, 1, base, base+60*k, false); err != nil {
+			h.Obs("fill failed: %v", err)
+			return
+		}
+		key := fmt.Sprintf("k%d", k)
+		if !waitFor("bucket cached", func() bool { return sizeOf(key) > 0 && v.Info().Size == sizeOf("k1")+sizeOf("k2") }) {
+			return
+		}
+	}
+	total, rest := v.Info().Size, sizeOf("k2")
+	release := v.HoldBucket(1, "k1")
+	v.SetLimits(4*total, rest, 0) // evicting the least recently used bucket (k1) lands exactly on the soft limit
+	done := make(chan error, 1)
+	go func() {
+		_, err := v.Get(context.Background(), 3, "u", "k3", 3, 0, 1, base, base+60, false)
+		done <- err
+	}()
+	parked := waitFor("load parked at the soft limit", func() bool { return parkedIn("tryNotExceedMemorySoftLimitInflight(") })
+	release() // the trim goroutine goes on: evicts k1, size == soft limit, sleeps
+	if parked {
+		select {
+		case err := <-done:
+			h.Obs("ok err=%v", err != nil)
+		case <-time.After(hangAfter):
+			info := v.Info()
+			h.Obs("hang")
+			h.Viol("request-never-returns", "exact soft limit scenario: a load parked in tryNotExceedMemorySoftLimitInflight is still waiting %v after trimming brought the size to %d with soft limit %d", hangAfter, info.Size, info.MaxSizeSoft)
+			h.Done()
+			os.Exit(0)
+		}
+	}
+	v.Shutdown()
+	h.NonTrivial("trim-lands-on-soft-limit")
 }
 
 // ---------------------------------------------------------------------------------------------- probes
